@@ -315,3 +315,119 @@ def syscall_run(template_db, policies, send, inject=None, workdir=None):
     except OSError:
         pass
     return db, d, info
+
+
+# ------------------------------------------------------------------ death during the FIRST start
+class ClassEvents(object):
+    """Counts SQLAlchemy events of EVERY engine of the process (listeners on the Engine class), so
+    that the statements of KmipEngine.__init__ (schema creation) are seen; dies at event k."""
+
+    def __init__(self, die_at=None):
+        from sqlalchemy.engine import Engine
+        self.log = []
+        self.die_at = die_at
+        event.listen(Engine, "before_cursor_execute", self._before)
+        event.listen(Engine, "after_cursor_execute", self._after)
+        event.listen(Engine, "commit", self._commit)
+
+    def _hit(self, kind, sql=""):
+        k = len(self.log)
+        self.log.append((kind, " ".join(sql.strip().split()[:3]).upper() if sql else ""))
+        if self.die_at is not None and k == self.die_at:
+            os._exit(17)
+
+    def _before(self, conn, cursor, statement, parameters, context, executemany):
+        self._hit("before", statement)
+
+    def _after(self, conn, cursor, statement, parameters, context, executemany):
+        self._hit("after", statement)
+
+    def _commit(self, conn):
+        self._hit("commit")
+
+
+def startup_run(policies, send, die_at=None, inject=None, trace=False, workdir=None):
+    """Fork a child that starts a server on a database file that does not exist yet (the schema
+    is created), then runs send(server).  die_at = k: os._exit at the k-th SQLAlchemy event of
+    the process; inject = (syscall, k): SIGKILL at that system call (strace); trace=True: strace
+    attached without injection (calibration).  -> (db, dir, info); info['events'] is the event
+    log of an uncrashed, untraced run."""
+    d = tempfile.mkdtemp(prefix="vstart-", dir=workdir)
+    db = os.path.join(d, "kmip.db")
+    tracef = os.path.join(d, "strace.out")
+    use_strace = trace or inject is not None
+    go_r, go_w = os.pipe()
+    rfd, wfd = os.pipe()
+    pid = os.fork()
+    if pid == 0:
+        code = 1
+        try:
+            os.close(rfd)
+            os.close(go_w)
+            ev = ClassEvents(die_at=die_at)
+            os.write(wfd, b"R")
+            os.read(go_r, 1)
+            srv = H.Server(policies=policies, db=db)
+            out = send(srv)
+            os.write(wfd, json.dumps({"out": out, "events": ev.log}, default=repr).encode())
+            code = 0
+        except BaseException as e:
+            try:
+                os.write(wfd, json.dumps({"child_error": repr(e)}).encode())
+            except Exception:
+                pass
+            code = 3
+        finally:
+            os._exit(code)
+    os.close(wfd)
+    os.close(go_r)
+    first = os.read(rfd, 1)
+    p = None
+    if use_strace and first == b"R":
+        p = _attach(pid, db, tracef, inject)
+    try:
+        os.write(go_w, b"g")
+    except OSError:
+        pass
+    os.close(go_w)
+    chunks = []
+    while True:
+        b = os.read(rfd, 65536)
+        if not b:
+            break
+        chunks.append(b)
+    os.close(rfd)
+    _, status = os.waitpid(pid, 0)
+    if p is not None:
+        try:
+            p.wait(timeout=20)
+        except Exception:
+            p.kill()
+    code = os.WEXITSTATUS(status) if os.WIFEXITED(status) else -os.WTERMSIG(status)
+    data = b"".join(chunks)
+    ack = None
+    if data:
+        try:
+            ack = json.loads(data.decode())
+        except Exception:
+            ack = {"child_error": "garbled pipe"}
+    ok = ack is not None and "child_error" not in (ack or {})
+    info = {"acked": ok, "ack": (ack or {}).get("out") if ok else ack, "exit": code,
+            "killed": code == -signal.SIGKILL, "attached": p is not None or not use_strace,
+            "events": (ack or {}).get("events") if ok else None}
+    if trace and inject is None:
+        calls = {}
+        try:
+            with open(tracef) as f:
+                for line in f:
+                    name = line.split("(", 1)[0].split()[-1] if "(" in line else ""
+                    if name in SYSCALLS:
+                        calls[name] = calls.get(name, 0) + 1
+        except OSError:
+            pass
+        info["calls"] = calls
+    try:
+        os.remove(tracef)
+    except OSError:
+        pass
+    return db, d, info
